@@ -466,6 +466,9 @@ class Program:
                 kw["domain"] = _dom_pred(f"dom_{n['id']}", dom["v"])
             elif dom["t"] == "expr":
                 kw["domain"] = self.ref(dom["n"])
+        if n.get("type"):
+            # a declared type: labrea issues a TypeValidationRequest for the value (the default handler accepts everything)
+            kw["type"] = {"int": int, "str": str, "object": object}[n["type"]]
         return Option(n["key"], **kw)
 
     def _fn(self, f, owner):
